@@ -61,6 +61,10 @@ func hops(m *M, c travCase, root int) []int {
 }
 
 func checkTraverse(c travCase) *vk.Failure {
+	return withIndet(c.G, func(g G) *vk.Failure { c2 := c; c2.G = g; return checkTraverse1(c2) })
+}
+
+func checkTraverse1(c travCase) *vk.Failure {
 	m := model(c.G)
 	n := m.n
 	vk.Class(fmt.Sprintf("trav/%s/dir=%v", c.Cls, c.Dir))
@@ -324,6 +328,62 @@ func checkTraverse(c travCase) *vk.Failure {
 		}
 	}
 
+	// -- a second Walk on the same traverser WITHOUT Reset (the traversers are
+	// "stateful"; WalkAll itself calls Walk repeatedly on one value). The set
+	// of visited nodes persists, so the second walk may skip nodes; but it is
+	// "a traversal of the graph g starting from the given node": everything it
+	// examines must be reachable from the new start node, and a breadth-first
+	// walk examines the start node at depth 0 and no node at a depth below its
+	// hop distance from the start node.
+	if n >= 2 {
+		root2 := (root + 1 + int(c.Target%uint64(n-1))) % n
+		dist2 := hops(m, c, root2)
+		rootNode2 := g.Node(m.id[root2])
+		stopFirst := func(i, d int) bool { return c.isTarget(i) || (c.Depth > 0 && d >= c.Depth) }
+		for _, kind := range []string{"bfs", "dfs"} {
+			var fail *vk.Failure
+			traversed = map[[2]int]int{}
+			if kind == "bfs" {
+				w := traverse.BreadthFirst{Traverse: filter}
+				if w.Walk(g, rootNode, func(x graph.Node, d int) bool { return stopFirst(m.idx[x.ID()], d) }) == nil {
+					continue // the first walk ran to completion
+				}
+				vk.Class("trav/rewalk-after-early-stop")
+				w.Walk(g, rootNode2, func(x graph.Node, d int) bool {
+					i, ok := m.idx[x.ID()]
+					if !ok || fail != nil {
+						return false
+					}
+					switch {
+					case dist2[i] < 0:
+						fail = vk.Failf("bfs-rewalk-stale-queue", "Walk from %d stopped early; a second Walk (no Reset) from %d examines node %d, which is not reachable from %d", m.id[root], m.id[root2], x.ID(), m.id[root2])
+					case i == root2 && d != 0, d < dist2[i]:
+						fail = vk.Failf("bfs-rewalk-stale-queue", "Walk from %d stopped early; a second Walk (no Reset) from %d reports node %d at depth %d, its hop distance from %d is %d", m.id[root], m.id[root2], x.ID(), d, m.id[root2], dist2[i])
+					}
+					return false
+				})
+			} else {
+				w := traverse.DepthFirst{Traverse: filter}
+				if w.Walk(g, rootNode, func(x graph.Node) bool { return stopFirst(m.idx[x.ID()], 0) }) == nil {
+					continue
+				}
+				w.Walk(g, rootNode2, func(x graph.Node) bool {
+					i, ok := m.idx[x.ID()]
+					if ok && fail == nil && dist2[i] < 0 {
+						fail = vk.Failf("dfs-rewalk-stale-stack", "Walk from %d stopped early; a second Walk (no Reset) from %d examines node %d, which is not reachable from %d", m.id[root], m.id[root2], x.ID(), m.id[root2])
+					}
+					return false
+				})
+			}
+			if badEdge != nil {
+				return badEdge
+			}
+			if fail != nil {
+				return fail
+			}
+		}
+	}
+
 	// -- DFS with until
 	{
 		visits := make([]int, n)
@@ -484,7 +544,7 @@ func TestTraverse(t *testing.T) {
 			if dir {
 				classes = dirClasses
 			}
-			g := drawG(t, dir, 40, classes, []int{contOrdered, contOrdered, contSimple, contMulti})
+			g := drawG(t, dir, 40, classes, []int{contOrdered, contOrdered, contSimple, contMulti, contIndet})
 			c := travCase{G: g, Root: rapid.IntRange(0, max(g.N-1, 0)).Draw(t, "root")}
 			if rapid.Bool().Draw(t, "filtered") {
 				c.Filter = rapid.Uint64Range(1, 1<<40).Draw(t, "filter")
